@@ -31,11 +31,15 @@ def main():
             except Exception:
                 res = [("crash", traceback.format_exc()[-300:])]
             if res is None: continue
-            hit = [r for r in res if re.fullmatch(e["signature"], r[0])]
+            def owns(e, sig):
+                m = re.fullmatch(r"[^/]+/known:(.+)", sig)
+                if m and e.get("cause"): return e["cause"] in m.group(1).split("+")
+                return bool(re.fullmatch(e["signature"], sig))
+            hit = [r for r in res if owns(e, r[0])]
             if e["status"] == "open":
                 e["still_fails"] = bool(hit)
                 for r in res:
-                    if not re.fullmatch(e["signature"], r[0]): ctx.fail(r[0], e["replay"]["case"], r[1])
+                    if not owns(e, r[0]): ctx.fail(r[0], e["replay"]["case"], r[1])
             else:
                 e["still_fails"] = bool(res)
                 for r in res: ctx.failures.append(dict(signature=r[0], case=e["replay"]["case"], detail="fixed finding %s is back: %s" % (e["id"], r[1])))
